@@ -983,6 +983,11 @@ class Columns(Widget, WidgetContainerMixin, WidgetContainerListContentsMixin):
         :type focus: bool
         """
         widths, _, size_args = self.get_column_sizes(size, focus)
+        # a hidden PACK column still takes part in the layout (its packed width decided that it
+        # does not fit): the canvas then depends on every column widget, not only the rendered ones
+        hidden_pack = any(
+            width <= 0 and t == WHSettings.PACK for width, (_, (t, _n, _b)) in zip(widths, self.contents)
+        )
 
         data: list[tuple[Canvas, int, bool, int]] = []
         for i, (width, w_size, (w, _)) in enumerate(zip(widths, size_args, self.contents)):
@@ -1003,12 +1008,18 @@ class Columns(Widget, WidgetContainerMixin, WidgetContainerListContentsMixin):
 
         if not data:
             if size:
-                return SolidCanvas(" ", size[0], (size[1:] + (1,))[0])
+                canvas = SolidCanvas(" ", size[0], (size[1:] + (1,))[0])
+                if hidden_pack:
+                    canvas = CompositeCanvas(canvas)
+                    canvas.set_depends([w for w, _ in self.contents])
+                return canvas
             raise ColumnsError("No data to render")
 
         canvas = CanvasJoin(data)
         if size and canvas.cols() < size[0]:
             canvas.pad_trim_left_right(0, size[0] - canvas.cols())
+        if hidden_pack:
+            canvas.set_depends([w for w, _ in self.contents])
         return canvas
 
     def get_cursor_coords(self, size: tuple[()] | tuple[int] | tuple[int, int]) -> tuple[int, int] | None:
